@@ -331,6 +331,23 @@ theorem tls_name_is_hostname {Cert : Type} (validName : String → Bool) (verify
   by_cases hv : validName h.hostname = true <;> by_cases hc : verify cert h.hostname = true <;>
     simp [tlsConnect, hv, hc, TlsOutcome.handshakeName, eq_comm]
 
+/-- One service instance, many calls: whatever was asked before (and after), the call for request `h`
+against certificate `cert` is judged for `h`'s own hostname — it succeeds only if the library verifies
+`cert` for exactly that name (so a request for a name the certificate does not cover fails even right
+after a successful call for a covered name), and a name the library rejects is `InvalidInput` every
+time. -/
+theorem tls_calls_are_independent {Cert : Type} (validName : String → Bool) (verify : Cert → String → Bool)
+    (pre post : List (Host × Cert)) (h : Host) (cert : Cert) :
+    (tlsConnectMany validName verify (pre ++ (h, cert) :: post))[pre.length]? = some (tlsConnect validName verify h cert) ∧
+    (∀ n, tlsConnect validName verify h cert = .established n → n = h.hostname ∧ verify cert h.hostname = true) ∧
+    (validName h.hostname = false → tlsConnect validName verify h cert = .invalidInput) := by
+  refine ⟨by simp [tlsConnectMany], ?_, ?_⟩
+  · intro n hn
+    have := (tls_name_is_hostname validName verify h cert).2.1 n hn
+    exact ⟨this.1, this.2.2⟩
+  · intro hv
+    exact (tls_name_is_hostname validName verify h cert).2.2.1.mp hv
+
 /-! ### Non-vacuity: the hypotheses are satisfiable by non-trivial requests -/
 
 private def a1 : Addr := { ip := "127.0.0.1", port := 4001 }
@@ -371,5 +388,9 @@ example : tlsConnect (fun n => n != "") (fun (c : List String) n => c.contains n
     = .handshakeError "b.test" := by decide
 example : tlsConnect (fun n => n != "") (fun (c : List String) n => c.contains n) (hostOfString ":443") ["a.test"]
     = .invalidInput := by decide
+/-- covered, then not covered, then invalid, then covered again — on one service -/
+example : tlsConnectMany (fun n => n != "") (fun (c : List String) n => c.contains n)
+    [(hostOfString "a.test:443", ["a.test"]), (hostOfString "b.test", ["a.test"]), (hostOfString ":1", ["a.test"]), (hostOfString "a.test", ["a.test"])]
+    = [.established "a.test", .handshakeError "b.test", .invalidInput, .established "a.test"] := by decide
 
 end ActixNet.C19
